@@ -32,6 +32,8 @@ class Ty:
         if k == 'arr':
             return f'[{self.n}]' + self.elem.go(q)
         if k == 'struct':
+            if getattr(self, 'generic_decl', None):
+                return f'{q}{self.generic_decl}[{self.targ.go(q)}]'
             return q + self.name
         if k == 'ptr':
             return '*' + self.elem.go(q)
@@ -93,6 +95,13 @@ class Universe:
             if s.key == key:
                 return s
         s = Ty('struct', f'S{len(self.structs)}', name=f'S{len(self.structs)}', fields=fields, key=key)
+        self.structs.append(s)
+        self.types[s.tid] = s
+        return s
+
+    def struct_named(self, name, fields, generic_decl=None, targ=None):
+        """an instantiated generic struct type `GTn[T]` (declared in lib as `type GTn[T any] struct{X0 T; X1 int64}`)"""
+        s = Ty('struct', generic_decl, name=name, fields=fields, key='gen_' + name, generic_decl=generic_decl, targ=targ)
         self.structs.append(s)
         self.types[s.tid] = s
         return s
@@ -250,9 +259,12 @@ def gen_value(t, rng, depth=0):
 # ------------------------------------------------------------------ signatures
 
 class Sig:
-    def __init__(self, idx, params, results, variadic=False, recv=None, recv_ptr=False, lane=''):
+    def __init__(self, idx, params, results, variadic=False, recv=None, recv_ptr=False, lane='', gen=None):
         self.idx, self.params, self.results, self.variadic = idx, params, results, variadic
         self.recv, self.recv_ptr, self.lane = recv, recv_ptr, lane
+        # gen: None, or {'T': concrete Ty, 'pin': positions of params of type T, 'pout': positions of results of type T}
+        # for `func F[T any](...)` / a method of `type GT[T any] struct{X0 T; X1 int64}` instantiated at T
+        self.gen = gen
         self.name = f'F{idx}' if recv is None else f'M{idx}'
 
     def all_in(self, u):
@@ -263,15 +275,26 @@ class Sig:
         return r + self.params
 
     def returnable(self):
-        ok = lambda t: t.kind in ('int', 'bool', 'f32', 'f64', 'c64', 'c128', 'str') or \
-            (t.kind == 'struct' and all(ok(f) for f in t.fields)) or (t.kind == 'arr' and ok(t.elem))
-        return all(ok(t) for t in self.results)
+        """every result kind can be given to Return(...); values travel through arg.I2V/toValue and reflect.makeFuncStub"""
+        return True
+
+    def whenable(self):
+        """signatures for which goom's argument equality coincides with equality of the canonical tokens"""
+        flat = lambda t: t.kind in ('int', 'bool', 'str') or (t.kind == 'struct' and t.fields and all(flat(f) for f in t.fields))
+        ok = lambda t: flat(t) or (t.kind == 'ptr' and flat(t.elem))
+        return (not self.variadic and self.recv is None and self.params and self.results and self.returnable() and self.gen is None
+                and all(ok(t) for t in self.params))
+
+    def has_ptr_param(self):
+        return any(t.kind == 'ptr' for t in self.params)
 
     def describe(self, u):
         ins = self.all_in(u)
         s = 'func(' + ', '.join(t.go('') for t in ins) + ('...' if self.variadic else '') + ')'
         if self.results:
             s += ' (' + ', '.join(t.go('') for t in self.results) + ')'
+        if self.gen:
+            s = f'generic[T={self.gen["T"].go("")}] ' + s
         return s
 
 
@@ -354,6 +377,24 @@ def build_corpus(rng, nrandom):
     add([I['int']] * 9, [I['int']], 'methods', recv=s2, recv_ptr=True)     # receiver + 9 ints: last one on the stack
     add([], [], 'methods', recv=s1, recv_ptr=True)
     add([u.slice(I['int'])], [I['int']], 'methods', recv=s2, recv_ptr=False, variadic=True)
+    # 10b. generic functions and methods of generic types (the shape body that goom patches takes a hidden dictionary).
+    #      'generic' = pointer-free instantiations (a shifted argument is a harmless wrong number);
+    #      'generic-ptr' = instantiations with pointers/strings (a shifted argument is a wild pointer: these lines are only
+    #      run once the pointer-free lines have shown that arguments are not shifted)
+    for T, lane in ((I['int'], 'generic'), (I['int64'], 'generic'), (F64, 'generic'), (s2, 'generic'), (I['uint8'], 'generic'),
+                    (STR, 'generic-ptr'), (u.ptr(I['int']), 'generic-ptr'), (ssi, 'generic-ptr')):
+        add([T, T], [T], lane, gen={'T': T, 'pin': {0, 1}, 'pout': {0}})
+        add([I['int'], T, STR if lane == 'generic-ptr' else I['int16'], T], [I['int'], T], lane, gen={'T': T, 'pin': {1, 3}, 'pout': {1}})
+        add([], [T], lane, gen={'T': T, 'pin': set(), 'pout': {0}})
+        grecv = u.struct_named(f'GT{len(sigs)}[{T.go("")}]', [T, I['int64']], generic_decl=f'GT{len(sigs)}', targ=T)
+        add([T, I['int']], [T, I['int']], lane, recv=grecv, recv_ptr=True, gen={'T': T, 'pin': {0}, 'pout': {0}})
+        grecv2 = u.struct_named(f'GT{len(sigs)}[{T.go("")}]', [T, I['int64']], generic_decl=f'GT{len(sigs)}', targ=T)
+        add([I['int'], T], [T], lane, recv=grecv2, recv_ptr=False, gen={'T': T, 'pin': {1}, 'pout': {0}})
+    # 10c. pointer parameters with flat pointees (conditional stubs judge the pointee of *this* call)
+    add([u.ptr(s2), I['int']], [I['int']], 'when-ptr')
+    add([u.ptr(ssi)], [STR], 'when-ptr')
+    add([I['int'], u.ptr(I['int64']), STR], [I['int64'], STR], 'when-ptr')
+    add([u.ptr(ssi), BOOL], [I['int']], 'when-ptr', recv=s2, recv_ptr=True)
     # 11. random signatures
     pool = list(I.values()) + [BOOL, F32, F64, C64, C128, STR, STR, EFACE, ERR, FN, MAP, CHAN, u.slice(I['int64']), u.slice(STR),
                                u.slice(I['uint8']), s1, s2, sfi, ssi, s4, smix, snest, sbig, sarr, sarr1, sptr, u.arr(2, I['int64']),
@@ -463,16 +504,20 @@ def emit(u, sigs):
     """Returns (lib.go text, probe_test.go text)."""
     for s in sigs:
         s.all_in(u)      # make sure receiver pointer types exist before the per-type helpers are emitted
-    L = ['// GENERATED by harness/c01/gen.py — the functions the C01 corpus mocks.', 'package c01lib', '',
+    L = ['//go:build go1.18', '', '// GENERATED by harness/c01/gen.py — the functions the C01 corpus mocks.', 'package c01lib', '',
          '// OrigRan counts executions of any original body.', 'var OrigRan int', 'var Sink uintptr', '',
          '// E is the error type used for error-typed values.', 'type E struct{ M string }', '',
          'func (e *E) Error() string { return e.M }', '',
          '// ES is a small struct stored in interface values.', 'type ES struct { A int64; B string }', '',
          '//go:noinline', 'func bump(n int) { OrigRan += n }', '']
     for s in u.structs:
+        gd = getattr(s, 'generic_decl', None)
+        if gd:
+            L.append(f'type {gd}[T any] struct {{ X0 T; X1 int64 }}')
+            continue
         L.append(f'type {s.name} struct {{ ' + '; '.join(f'X{i} {f.go("")}' for i, f in enumerate(s.fields)) + ' }')
     L.append('')
-    P = ['// GENERATED by harness/c01/gen.py — per-signature glue of the C01 corpus.', 'package c01_test', '',
+    P = ['//go:build go1.18', '', '// GENERATED by harness/c01/gen.py — per-signature glue of the C01 corpus.', 'package c01_test', '',
          'import (', '\t"encoding/hex"', '\t"math"', '\t"reflect"', '\t"sort"', '\t"strconv"', '\t"unsafe"', '',
          '\tmocker "github.com/tencent/goom"', '\tlib "github.com/tencent/goom/internal/zzverif/c01lib"', ')', '',
          'var _ = hex.EncodeToString', 'var _ = math.Float64bits', 'var _ = reflect.ValueOf', 'var _ = sort.Strings',
@@ -484,26 +529,31 @@ def emit(u, sigs):
         nin = len(ins)
         q = 'lib.'
         # ---- lib side
-        def plist(qual, names=True, variadic_last=s.variadic, skip_recv=False):
+        def plist(qual, names=True, variadic_last=s.variadic, skip_recv=False, gsub=True):
             parts = []
             tys = s.params
             for j, t in enumerate(tys):
                 g = t.go(qual)
+                if gsub and s.gen and j in s.gen['pin']:
+                    g = 'T'
                 if variadic_last and j == len(tys) - 1:
                     g = '...' + t.elem.go(qual)
                 parts.append((f'a{j} ' if names else '') + g)
             return ', '.join(parts)
-        res_l = ('(' + ', '.join(f'r{j} {t.go("")}' for j, t in enumerate(s.results)) + ')') if s.results else ''
+        rty = lambda j, t: 'T' if s.gen and j in s.gen['pout'] else t.go("")
+        res_l = ('(' + ', '.join(f'r{j} {rty(j, t)}' for j, t in enumerate(s.results)) + ')') if s.results else ''
+        tp = '[T any]' if s.gen else ''
+        targ = f'[{s.gen["T"].go(q)}]' if s.gen else ''
         body = ' OrigRan++; Sink += uintptr(OrigRan) * 3; if OrigRan > 1<<40 { bump(1) }; return '
         args_fwd = ', '.join(f'a{j}' + ('...' if s.variadic and j == len(s.params) - 1 else '') for j in range(len(s.params)))
         if s.recv is None:
-            L.append(f'func {s.name}({plist("")}) {res_l} {{{body}}}')
-            L.append(f'func Call{s.name}({plist("")}) {res_l} {{ ' + ('return ' if s.results else '') + f'{s.name}({args_fwd}) }}')
+            L.append(f'func {s.name}{tp}({plist("")}) {res_l} {{{body}}}')
+            L.append(f'func Call{s.name}{tp}({plist("")}) {res_l} {{ ' + ('return ' if s.results else '') + f'{s.name}{"[T]" if s.gen else ""}({args_fwd}) }}')
         else:
-            rt = ('*' if s.recv_ptr else '') + s.recv.name
+            rt = ('*' if s.recv_ptr else '') + (s.recv.generic_decl + '[T]' if s.gen else s.recv.name)
             L.append(f'func (rc {rt}) {s.name}({plist("")}) {res_l} {{{body}}}')
-            L.append(f'func Call{s.name}(rc {rt}{", " if s.params else ""}{plist("")}) {res_l} {{ ' + ('return ' if s.results else '') + f'rc.{s.name}({args_fwd}) }}')
-            L.append(f'type I{i} interface {{ {s.name}({plist("", names=False)}) {("(" + ", ".join(t.go("") for t in s.results) + ")") if s.results else ""} }}')
+            L.append(f'func Call{s.name}{tp}(rc {rt}{", " if s.params else ""}{plist("")}) {res_l} {{ ' + ('return ' if s.results else '') + f'rc.{s.name}({args_fwd}) }}')
+            L.append(f'type I{i} interface {{ {s.name}({plist("", names=False, gsub=False)}) {("(" + ", ".join(t.go("") for t in s.results) + ")") if s.results else ""} }}')
         # ---- probe side
         fty_params = ', '.join(t.go(q) for t in ins[:-1] + ([ins[-1]] if ins else [])) if not s.variadic else \
             ', '.join([t.go(q) for t in ins[:-1]] + ['...' + ins[-1].elem.go(q)])
@@ -524,13 +574,13 @@ def emit(u, sigs):
             a[-1] += '...'
         lhs = (', '.join(f'recv{i}.r{j}' for j in range(len(s.results))) + ' = ') if s.results else ''
         if s.recv is None:
-            direct = f'{lhs}lib.{s.name}({", ".join(a)})'
-            target = f'lib.{s.name}'
-            pkg = f'{lhs}lib.Call{s.name}({", ".join(a)})'
-            fvexpr = f'lib.{s.name}'
+            direct = f'{lhs}lib.{s.name}{targ}({", ".join(a)})'
+            target = f'lib.{s.name}{targ}'
+            pkg = f'{lhs}lib.Call{s.name}{targ}({", ".join(a)})'
+            fvexpr = f'lib.{s.name}{targ}'
         else:
             direct = f'{lhs}{a[0]}.{s.name}({", ".join(a[1:])})'
-            rt = ('*' if s.recv_ptr else '') + 'lib.' + s.recv.name
+            rt = ('*' if s.recv_ptr else '') + s.recv.go(q)
             target = f'({rt}).{s.name}'
             pkg = f'{lhs}lib.Call{s.name}({", ".join(a)})'
             fvexpr = target
@@ -549,7 +599,7 @@ def emit(u, sigs):
             rargs = ', '.join(f'reflect.ValueOf(&sent{i}.a{j}).Elem()' for j in range(nin))
             call = 'CallSlice' if s.variadic else 'Call'
             sets = '; '.join(f'reflect.ValueOf(&recv{i}.r{j}).Elem().Set(out[{j}])' for j in range(len(s.results)))
-            forms['reflect'] = f'out := reflect.ValueOf(lib.{s.name}).{call}([]reflect.Value{{{rargs}}}); _ = out; {sets}'
+            forms['reflect'] = f'out := reflect.ValueOf(lib.{s.name}{targ}).{call}([]reflect.Value{{{rargs}}}); _ = out; {sets}'
         else:
             forms['mv'] = f'f := {a[0]}.{s.name}; {lhs}f({", ".join(a[1:])})'
             forms['iface'] = f'var it lib.I{i} = {a[0]}; {lhs}it.{s.name}({", ".join(a[1:])})'
@@ -564,20 +614,30 @@ def emit(u, sigs):
         same = ' && '.join([f'same_{t.tid}(sent{i}.a{j}, got{i}.a{j})' for j, t in enumerate(ins)] +
                            [f'same_{t.tid}(ret{i}.r{j}, recv{i}.r{j})' for j, t in enumerate(s.results)]) or 'true'
         retvals = ', '.join(f'ret{i}.r{j}' for j in range(len(s.results)))
+        first = 0 if s.recv is None else 1
+        sentvals = ', '.join(f'sent{i}.a{j}' for j in range(first, nin))
         if s.recv is None:
-            mock = f'func(b *mocker.Builder, cb interface{{}}) {{ b.Func(lib.{s.name}).Apply(cb) }}'
-            mret = f'func(b *mocker.Builder) {{ b.Func(lib.{s.name}).Return({retvals}) }}'
+            get = f'func(b *mocker.Builder) mocker.ExportedMocker {{ return b.Func(lib.{s.name}{targ}) }}'
         else:
-            inst = f'new(lib.{s.recv.name})' if s.recv_ptr else f'lib.{s.recv.name}{{}}'
-            mock = f'func(b *mocker.Builder, cb interface{{}}) {{ b.Struct({inst}).Method("{s.name}").Apply(cb) }}'
-            mret = f'func(b *mocker.Builder) {{ b.Struct({inst}).Method("{s.name}").Return({retvals}) }}'
+            inst = f'new({s.recv.go(q)})' if s.recv_ptr else f'{s.recv.go(q)}{{}}'
+            get = f'func(b *mocker.Builder) mocker.ExportedMocker {{ return b.Struct({inst}).Method("{s.name}") }}'
+        # re-use of argument objects: pointer arguments keep their address, the pointee is overwritten in place
+        reuse = []
+        for j, t in enumerate(ins):
+            if t.kind == 'ptr' and not (s.recv is not None and j == 0):
+                reuse.append(f'if p := sent{i}.a{j}; p != nil && !r.peeknil() {{ r.expect("p"); *p = rd_{t.elem.tid}(r) }} else {{ sent{i}.a{j} = rd_{t.tid}(r) }}')
+            else:
+                reuse.append(f'sent{i}.a{j} = rd_{t.tid}(r)')
+        setreuse = '; '.join(reuse)
         P.append(f'func init() {{ sigs[{i}] = &sigOps{{\n'
                  f'\tmk: mk{i}, call: call{i},\n'
                  f'\tsetArgs: func(r *rd) {{ {setargs} }},\n\tsetRes: func(r *rd) {{ {setres} }},\n'
                  f'\tgotArgs: func(w *wr) {{ {gotw} }},\n\trecvRes: func(w *wr) {{ {recvw} }},\n'
                  f'\tsame: func() bool {{ return {same} }},\n'
                  f'\tclear: func() {{ got{i} = struct {{ ' + '; '.join(f'a{j} {t.go(q)}' for j, t in enumerate(ins)) + f' }}{{}}; recv{i} = struct {{ ' + '; '.join(f'r{j} {t.go(q)}' for j, t in enumerate(s.results)) + ' }{} },\n'
-                 f'\tmock: {mock},\n\tmockRet: {mret},\n}} }}')
+                 f'\tsetArgsReuse: func(r *rd) {{ {setreuse} }},\n'
+                 f'\tget: {get},\n\tretVals: func() []interface{{}} {{ return []interface{{}}{{{retvals}}} }},\n'
+                 f'\tsentVals: func() []interface{{}} {{ return []interface{{}}{{{sentvals}}} }},\n}} }}')
         P.append('')
     return '\n'.join(L) + '\n', '\n'.join(P) + '\n'
 
